@@ -706,6 +706,14 @@ func (c *Ctx) lemmaFormula(l *Lemma, suffix string) (binders []string, req, ens 
 		binders = append(binders, "("+n+" "+ty.sort+")")
 	}
 	var rs, es []string
+	for _, p := range l.Params {
+		v := env.vars[p.Name]
+		if v.ty.gt != nil {
+			if inv := c.valueTypeInv(v.term, v.ty.gt, 0); inv != "true" {
+				rs = append(rs, inv)
+			}
+		}
+	}
 	for _, r := range l.Requires {
 		rs = append(rs, env.boolExpr(r.E))
 	}
@@ -1141,4 +1149,30 @@ func heapLemmaTrivial(inst string) bool {
 		}
 	}
 	return true
+}
+
+// valueTypeInv: range constraints of the integer fields of a pure value (no references).
+func (c *Ctx) valueTypeInv(v string, t types.Type, depth int) string {
+	t = types.Unalias(t)
+	if n, ok := t.(*types.Named); ok {
+		if _, ok := c.reg.opaque[qualName(n)]; ok {
+			return "true"
+		}
+	}
+	switch u := t.Underlying().(type) {
+	case *types.Basic:
+		if u.Info()&types.IsInteger != 0 {
+			lo, hi := intRange(u.Kind())
+			return and(app("<=", lo, v), app("<=", v, hi))
+		}
+	case *types.Struct:
+		if si := c.reg.structOf(t); si != nil && depth < 4 {
+			var cs []string
+			for _, f := range si.fields {
+				cs = append(cs, c.valueTypeInv(app(f.acc, v), f.typ, depth+1))
+			}
+			return and(cs...)
+		}
+	}
+	return "true"
 }
